@@ -293,6 +293,14 @@ func init() {
 		config.Global.NumWorkers = workers
 		return guarded(timeoutOf(req), func() any {
 			ctx := console.WithLogger(context.Background(), nopLogger())
+			if ms, ok := req["cancel_after_ms"].(float64); ok && ms > 0 {
+				// what SIGINT / SIGTERM do in grog: console.SetupCommand cancels the command's context
+				var cancel context.CancelFunc
+				ctx, cancel = context.WithCancel(ctx)
+				timer := time.AfterFunc(time.Duration(ms)*time.Millisecond, cancel)
+				defer timer.Stop()
+				defer cancel()
+			}
 			var pkgs []*model.Package
 			var lerr error
 			quietly(func() { pkgs, lerr = loading.LoadPackages(ctx, d) })
